@@ -3,7 +3,7 @@
 From DV Require Import Base.Prelude Model.BTreeM Proofs.BTreeBase Proofs.BTreeWf Proofs.BTreeInsert
   Proofs.BTreeLookup Proofs.BTreeDelete Proofs.BTreeTop
   Model.BTreeStoreM Proofs.BTreeStore Proofs.BTreeIsolation Proofs.BTreeCursor Proofs.BTreeHistory
-  Proofs.BTreeRefine Proofs.BTreeRefine5 Proofs.BTreeRefine6 Proofs.BTreeRefine7 Proofs.BTreeRefine8 Proofs.BTreeRefine9.
+  Proofs.BTreeRefine Proofs.BTreeRefine5 Proofs.BTreeRefine6 Proofs.BTreeRefine7 Proofs.BTreeRefine8 Proofs.BTreeRefine9 Proofs.BTreeHeight.
 
 (* _Node.search_in_node (shortcut + binary search) on a key-sorted node = linear search *)
 Theorem search_spec : forall k es, ksorted es -> search k es = Ok (lsearch k es).
@@ -180,6 +180,15 @@ Theorem history_wf : forall xs,
   Forall (fun tc => exists b, nth_error (w_trees w) (fst tc) = Some b /\ cinv (b_t b) (b_root b) (snd tc)) (w_cursors w).
 Proof. exact history_wf_proof. Qed.
 Print Assumptions history_wf.
+
+(* The height of a well-formed tree with an internal root is logarithmic in the number n of
+   elements: 2 * t^(depth-1) <= n + 1.  Every operation of the model descends with fuel = depth, so
+   this bounds every root-to-leaf path (search, insert, delete, cursor seek). *)
+Theorem height_bound : forall t, (3 <= t)%nat -> forall root,
+  wf t root -> n_leaf root = false ->
+  (2 * t ^ (depth root - 1) <= S (length (elements root)))%nat.
+Proof. exact height_bound_proof. Qed.
+Print Assumptions height_bound.
 
 (* The store-level model (nodes with ids and creator tags, in-place writes, maybe_cow /
    maybe_cow_child / clone allocate - Model/BTreeStoreM.v, the model the harness runs) refines the
